@@ -21,6 +21,7 @@ import (
 	"log/slog"
 	"net/netip"
 	"reflect"
+	"slices"
 
 	"github.com/osrg/gobgp/v4/pkg/packet/bgp"
 	"github.com/segmentio/fasthash/fnv1a"
@@ -278,7 +279,12 @@ func UpdatePathAggregator4ByteAs(msg *bgp.BGPUpdate) error {
 	}
 
 	if aggAttr == nil && agg4Attr != nil {
-		return bgp.NewMessageError(bgp.BGP_ERROR_UPDATE_MESSAGE_ERROR, bgp.BGP_ERROR_SUB_MALFORMED_ATTRIBUTE_LIST, nil, "AS4 AGGREGATOR attribute exists, but AGGREGATOR doesn't")
+		// RFC 6793 Sections 3 and 6: an AS4_AGGREGATOR that has no usable
+		// AGGREGATOR to be merged into is discarded, it is not an error.
+		msg.PathAttributes = slices.DeleteFunc(msg.PathAttributes, func(a bgp.PathAttributeInterface) bool {
+			return a.GetType() == bgp.BGP_ATTR_TYPE_AS4_AGGREGATOR
+		})
+		return nil
 	}
 
 	if agg4Attr != nil {
